@@ -626,6 +626,8 @@ class Sim:
                         self._running -= 1
                         fut._exc = e
                         fut._state = "FINISHED"
+                        sim.log("pool.end", None, pool=self._prefix, exc=e,
+                                idx=next((getattr(a, "index", None) for a in args if hasattr(a, "index") and hasattr(a, "func")), None))
                         sim.progress()
                         # like concurrent.futures: callbacks run in the worker; a BaseException from a
                         # callback escapes (kills this worker thread)
@@ -634,6 +636,8 @@ class Sim:
                     self._running -= 1
                     fut._result = res
                     fut._state = "FINISHED"
+                    sim.log("pool.end", None, pool=self._prefix, exc=None,
+                            idx=next((getattr(a, "index", None) for a in args if hasattr(a, "index") and hasattr(a, "func")), None))
                     sim.progress()
                     fut._invoke()
 
